@@ -251,10 +251,14 @@ class _ForUnroll(SiteRewriter):
         aimed = self._selects(block, pos, idx)
         if aimed:
             self._matched += 1
-        if not (aimed and self.times > 0):
+        if not aimed:
             return super()._visit_for(stmt, ctx)
         if self.listing:
             self.found.append(StmtPath(self._paths[id(block)], pos))
+            return super()._visit_for(stmt, ctx)
+        if self.times <= 0:
+            # `times == 0` leaves the loop as it is; it is a site all the
+            # same, listed and counted like any other
             return super()._visit_for(stmt, ctx)
 
         # ``k`` consecutive elements are consumed per rewritten iteration.
